@@ -151,7 +151,7 @@ func (p c12) Run(c *core.Ctx) {
 			// "until a snapshot is restored": the snapshot of the last node entry revives the runner
 			snap := pair.R.DR.Snapshot()
 			check := pair.M.Check.Clone()
-			if err := pair.R.DR.RestoreAt(snap); err != nil {
+			if err := pair.R.RestoreAt(snap); err != nil {
 				c.Violate("restoring the runner's own snapshot after the end failed", map[string]any{"readers": scripts, "choices": pr.choices, "error": err.Error()})
 				return
 			}
